@@ -1,7 +1,8 @@
 """C44 Private workflow files are created owner-only, whatever the umask.
 
 Monitor shape: for every umask that leaves the owner bits set (64 of them)
-and every start-up scenario, a forked child sets the umask, builds a real
+and every start-up scenario, a forked child (one per shard, serving its cases
+in turn) sets the umask, builds a real
 `cylc.flow.scheduler.Scheduler`, runs its real `install()` / `start()` (and,
 per scenario, main-loop iterations or the whole `run_scheduler()`), and
 lstat()s the private files named by the property at fixed checkpoints.
@@ -58,6 +59,11 @@ ASSUMPTIONS = [
     'modes during install()/configure() are recorded but not judged',
     'umasks that mask an owner bit are outside the quantifier (the '
     'scheduler cannot work under them) and are not run',
+    'one child is forked per shard (re-forked after any failure) and runs '
+    'that shard\'s cases one after another, setting the case umask itself '
+    'and reporting the umask in force at every checkpoint (a mismatch is a '
+    'harness error); a fork per case costs seconds of page-fault time in '
+    'this sandbox',
     'main-loop / server sleep intervals are shortened by the harness '
     '(class attributes), nothing else is patched',
     'transient SQLite journal files are not judged',
@@ -276,55 +282,121 @@ def _child_main(spec):
     return report
 
 
-def _fork_run(spec, timeout):
-    r, w = os.pipe()
-    pid = os.fork()
-    if pid == 0:
-        # child
-        rc = 0
-        try:
-            signal.alarm(0)
-            signal.signal(signal.SIGALRM, signal.SIG_DFL)
-            os.close(r)
-            devnull = os.open(os.devnull, os.O_WRONLY)
-            os.dup2(devnull, 1)
+class _Worker:
+    """A forked child of the shard process that serves start-up cases.
+
+    Forking is expensive in this sandbox (seconds of page-fault time per
+    fork of the loaded interpreter), so one child is forked per shard (and
+    re-forked after a failure) instead of one per case; the child sets the
+    case's umask itself before it touches anything and reports the umask
+    in force at every checkpoint.
+    """
+
+    def __init__(self):
+        self.pid = None
+        self.rfd = self.wfd = None
+        self.buf = b''
+        self.forks = 0
+
+    def start(self):
+        c2p_r, c2p_w = os.pipe()
+        p2c_r, p2c_w = os.pipe()
+        pid = os.fork()
+        if pid == 0:
+            rc = 0
             try:
-                rep = _child_main(spec)
+                signal.alarm(0)
+                signal.signal(signal.SIGALRM, signal.SIG_DFL)
+                os.close(c2p_r)
+                os.close(p2c_w)
+                devnull = os.open(os.devnull, os.O_WRONLY)
+                os.dup2(devnull, 1)
+                inp = os.fdopen(p2c_r, 'rb')
+                out = os.fdopen(c2p_w, 'wb')
+                for line in inp:
+                    spec = json.loads(line.decode())
+                    try:
+                        rep = _child_main(spec)
+                    except BaseException:
+                        rep = {'error': traceback.format_exc(limit=12)}
+                    out.write(json.dumps(rep).encode() + b'\n')
+                    out.flush()
             except BaseException:
-                rep = {'error': traceback.format_exc(limit=12)}
-            data = json.dumps(rep).encode()
-            with os.fdopen(w, 'wb') as f:
-                f.write(data)
-        except BaseException:
-            rc = 3
-        finally:
-            os._exit(rc)
-    os.close(w)
-    chunks = []
-    deadline = time.monotonic() + timeout
-    try:
-        while True:
+                rc = 3
+            finally:
+                os._exit(rc)
+        os.close(c2p_w)
+        os.close(p2c_r)
+        self.pid, self.rfd, self.wfd, self.buf = pid, c2p_r, p2c_w, b''
+        self.forks += 1
+
+    def stop(self, kill=True):
+        if self.pid is None:
+            return
+        for fd in (self.wfd, self.rfd):
+            try:
+                os.close(fd)
+            except OSError:
+                pass
+        if kill:
+            try:
+                os.kill(self.pid, signal.SIGKILL)
+            except OSError:
+                pass
+        try:
+            os.waitpid(self.pid, 0)
+        except ChildProcessError:
+            pass
+        self.pid = None
+
+    def call(self, spec, timeout):
+        if self.pid is None:
+            self.start()
+        try:
+            os.write(self.wfd, json.dumps(spec).encode() + b'\n')
+        except OSError as exc:
+            self.stop()
+            return {'error': f'worker pipe broken: {exc}'}
+        deadline = time.monotonic() + timeout
+        while b'\n' not in self.buf:
             left = deadline - time.monotonic()
             if left <= 0:
-                os.kill(pid, signal.SIGKILL)
-                os.waitpid(pid, 0)
+                self.stop()
                 return {'error': f'child timed out after {timeout}s'}
-            ready, _, _ = select.select([r], [], [], min(left, 1.0))
+            ready, _, _ = select.select([self.rfd], [], [], min(left, 1.0))
             if ready:
-                b = os.read(r, 1 << 16)
+                b = os.read(self.rfd, 1 << 16)
                 if not b:
-                    break
-                chunks.append(b)
-    finally:
-        os.close(r)
-    try:
-        os.waitpid(pid, 0)
-    except ChildProcessError:
-        pass
-    try:
-        return json.loads(b''.join(chunks).decode())
-    except ValueError:
-        return {'error': 'child produced no report'}
+                    self.stop()
+                    return {'error': 'child died without a report'}
+                self.buf += b
+        line, self.buf = self.buf.split(b'\n', 1)
+        try:
+            return json.loads(line.decode())
+        except ValueError:
+            self.stop()
+            return {'error': 'child produced an unreadable report'}
+
+
+_WORKER = _Worker()
+
+
+def _fork_run(spec, timeout):
+    rep = _WORKER.call(spec, timeout)
+    if 'error' in rep and _WORKER.pid is not None:
+        # the child survived but the case failed inside it: start the next
+        # case from a fresh child so no half-started scheduler lingers
+        _WORKER.stop()
+    return rep
+
+
+def teardown_shard(ctx):
+    ctx.count('worker_forks', _WORKER.forks)
+    _WORKER.stop()
+
+
+def on_timeout(ctx, i):
+    _WORKER.stop()
 
 
 # ---------------------------------------------------------------------------
@@ -383,6 +455,11 @@ def run_case(ctx, i, rng):
     for c in rep['checkpoints']:
         at = c['at']
         phase = at.split(':', 1)[1]
+        if c.get('umask_now') is not None and not at.startswith(
+                'first') and c['umask_now'] != u:
+            # the process umask in force is not the one this case claims
+            raise RuntimeError(
+                f'umask at {at} is {c["umask_now"]:03o}, expected {u:03o}')
         running = phase.startswith(('after_start', 'main_loop'))
         if not c['judged']:
             ctx.count('checkpoints_recorded_not_judged')
